@@ -192,3 +192,7 @@ def replay(case):
 def main(ctx, t0):
     acc = core.run_units(units(ctx), run_unit, ctx)
     return core.finish(PID, ctx, LEVEL, acc, RULE, {"exhaustive": True, "plan": [f"{a}/{b}" for a, b in plan(ctx)]}, ASSUMPTIONS, t0)
+
+
+def replay_unit(unit, ctx):
+    return run_unit(unit, ctx)
